@@ -4,8 +4,11 @@ import QipVerif.Lemmas.RouteLoop
 
 `Routed setup N a b out S G`: `out = swaps S ++ G :: swaps S.reverse`, every swap of `S` is in
 range and acts on neighbours of the topology, and the images of `a`, `b` under `S` are neighbours.
-`routeCtl_spec` / `routeSwp_spec` establish it for every `N`, both topologies, every ordered pair
-of distinct in-range qubits and every handled name.
+`routeCtl_specV` / `routeSwp_specV` establish it for every `N`, every `setup` (any string other than
+"linear" is routed on the ring, `Setup.eff`), every ordered pair of distinct in-range qubits, every
+handled name, and both values of the flag `ccFix` (`fixes/C07-5.patch`: the routed gate keeps the
+classical condition); `routeCtl_spec` / `routeSwp_spec` are the instances for the two documented
+setups and `Variant.fixed`.
 -/
 namespace QipVerif.Route
 
@@ -112,35 +115,65 @@ theorem bwd_spec (N : Nat) (mk mk' : Nat → Nat → Gate) (f : Nat → Gate →
 
 /-! ## re-indexing in the repaired code does not depend on the counter `j` -/
 
-theorem reidxCtl1_swapG (N e j a b : Nat) :
-    reidxCtl1 .fixed N e j (swapG a b) = swapG ((e + a) % N) ((e + b) % N) := by
-  simp [reidxCtl1, swapG, GName.isCtl, lowIdx, Variant.fixed]
+theorem rep_modFix (cc : Bool) : (Variant.rep cc).modFix = true := rfl
+theorem rep_roleFix (cc : Bool) : (Variant.rep cc).roleFix = true := rfl
+theorem rep_argFix (cc : Bool) : (Variant.rep cc).argFix = true := rfl
+theorem rep_measFix (cc : Bool) : (Variant.rep cc).measFix = true := rfl
+theorem rep_cond (cc : Bool) (g : Gate) : (Variant.rep cc).cond g = if cc then g.extra else 0 := rfl
+theorem fixed_cond (g : Gate) : Variant.fixed.cond g = 0 := rfl
 
-theorem reidxCtl1_mkCtl (N e j : Nat) (nm : GName) (hnm : nm.isCtl = true) (b : Bool) (lo hi : Nat) :
-    reidxCtl1 .fixed N e j (mkCtl nm b lo hi) = mkCtl nm b ((e + lo) % N) ((e + hi) % N) := by
-  cases b <;> simp [reidxCtl1, mkCtl, hnm, lowIdx, Variant.fixed]
+theorem reidxCtl1_swapG (cc : Bool) (N e j a b : Nat) :
+    reidxCtl1 (.rep cc) N e j (swapG a b) = swapG ((e + a) % N) ((e + b) % N) := by
+  cases cc <;> simp [reidxCtl1, swapG, GName.isCtl, lowIdx, Variant.rep, Variant.cond]
 
-theorem reidxSwp1_swapG (N e j a b : Nat) :
-    reidxSwp1 .fixed N e j (swapG a b) = swapG ((e + a) % N) ((e + b) % N) := by
-  simp [reidxSwp1, swapG, lowIdx, Variant.fixed]
+/-- the copy of the routed gate keeps its condition `x` (`x = 0` when conditions are dropped) -/
+theorem reidxCtl1_mkCtl (cc : Bool) (N e j : Nat) (nm : GName) (hnm : nm.isCtl = true) (x : Nat)
+    (hx : cc = false → x = 0) (b : Bool) (lo hi : Nat) :
+    reidxCtl1 (.rep cc) N e j (mkCtl nm x b lo hi) = mkCtl nm x b ((e + lo) % N) ((e + hi) % N) := by
+  cases cc
+  · have := hx rfl; subst this
+    cases b <;> simp [reidxCtl1, mkCtl, hnm, lowIdx, Variant.rep, Variant.cond]
+  · cases b <;> simp [reidxCtl1, mkCtl, hnm, lowIdx, Variant.rep, Variant.cond]
 
-theorem reidxSwp1_mkSwp (N e j : Nat) (nm : GName) (a lo hi : Nat) :
-    reidxSwp1 .fixed N e j (mkSwp nm a lo hi) = mkSwp nm a ((e + lo) % N) ((e + hi) % N) := by
-  simp [reidxSwp1, mkSwp, lowIdx, Variant.fixed]
+theorem reidxSwp1_swapG (cc : Bool) (N e j a b : Nat) :
+    reidxSwp1 (.rep cc) N e j (swapG a b) = swapG ((e + a) % N) ((e + b) % N) := by
+  cases cc <;> simp [reidxSwp1, swapG, lowIdx, Variant.rep, Variant.cond]
+
+theorem reidxSwp1_mkSwp (cc : Bool) (N e j : Nat) (nm : GName) (a x : Nat) (hx : cc = false → x = 0)
+    (lo hi : Nat) :
+    reidxSwp1 (.rep cc) N e j (mkSwp nm a x lo hi) = mkSwp nm a x ((e + lo) % N) ((e + hi) % N) := by
+  cases cc
+  · have := hx rfl; subst this
+    simp [reidxSwp1, mkSwp, lowIdx, Variant.rep, Variant.cond]
+  · simp [reidxSwp1, mkSwp, lowIdx, Variant.rep, Variant.cond]
+
+theorem cond_zero_of_not_cc (cc : Bool) (g : Gate) : cc = false → (Variant.rep cc).cond g = 0 := by
+  intro h; subst h; rfl
 
 /-! ## the two kinds of handled gates -/
+
+/-- The topology on which a `setup` string is routed: `"linear"` on the open chain, `"circular"` on
+the ring — and **any other string** on the ring too, always through the wrap-around pair (the
+conditions `setup == "linear"` / `setup == "circular"` of the forward path are both false). -/
+def Setup.eff : Setup → Setup
+  | .linear => .linear
+  | _ => .circular
+
+theorem Setup.eff_of_doc {setup : Setup} (hs : setup = .linear ∨ setup = .circular) : setup.eff = setup := by
+  rcases hs with rfl | rfl <;> rfl
 
 theorem fixed_modFix : Variant.fixed.modFix = true := rfl
 theorem fixed_roleFix : Variant.fixed.roleFix = true := rfl
 theorem fixed_argFix : Variant.fixed.argFix = true := rfl
 theorem fixed_measFix : Variant.fixed.measFix = true := rfl
 
-/-- CNOT / CSIGN with control `c`, target `t`: the routed gate keeps the roles. -/
-theorem routeCtl_spec (N : Nat) (setup : Setup) (hs : setup = .linear ∨ setup = .circular)
+/-- CNOT / CSIGN with control `c`, target `t`: the routed gate keeps the roles (and, with C07-5, the
+classical condition).  Every `setup`. -/
+theorem routeCtl_specV (cc : Bool) (N : Nat) (setup : Setup)
     (g : Gate) (c t : Nat) (hnm : g.name.isCtl = true) (hC : g.controls = [c]) (hT : g.targets = [t])
     (hct : c ≠ t) (hc : c < N) (ht : t < N) :
-    ∃ out S, routeCtl .fixed N setup g c t = .ok out ∧
-      Routed setup N c t out S ⟨g.name, [track S c], [track S t], 0, 0⟩ := by
+    ∃ out S, routeCtl (.rep cc) N setup g c t = .ok out ∧
+      Routed setup.eff N c t out S ⟨g.name, [track S c], [track S t], 0, (Variant.rep cc).cond g⟩ := by
   -- the two orientations
   obtain ⟨s, e, ce, hmin, hmax, hce, hse, heN, hr⟩ :
       ∃ s e ce, min t c = s ∧ max t c = e ∧ (e == c) = ce ∧ s < e ∧ e < N ∧
@@ -149,24 +182,27 @@ theorem routeCtl_spec (N : Nat) (setup : Setup) (hs : setup = .linear ∨ setup 
     · refine ⟨c, t, false, by omega, by omega, ?_, h, ht, Or.inr ⟨rfl, rfl, rfl⟩⟩
       simp; omega
     · exact ⟨t, c, true, by omega, by omega, by simp, h, hc, Or.inl ⟨rfl, rfl, rfl⟩⟩
-  simp only [routeCtl, hmin, hmax, hce, fixed_roleFix, if_true]
+  generalize hx : (Variant.rep cc).cond g = x
+  have hx0 : cc = false → x = 0 := fun h => by rw [← hx]; exact cond_zero_of_not_cc cc g h
+  simp only [routeCtl, hmin, hmax, hce, rep_roleFix, if_true, hx]
   by_cases hfw : setup = .linear ∨ (setup = .circular ∧ e - s ≤ N / 2)
   · rw [if_pos hfw]
-    obtain ⟨S, h1, h2, h3⟩ := fwd_spec setup N (mkCtl g.name ce) s e hse heN
+    obtain ⟨S, h1, h2, h3⟩ := fwd_spec setup.eff N (mkCtl g.name x ce) s e hse heN
     refine ⟨_, S, rfl, ?_⟩
     rcases hr with ⟨rfl, rfl, rfl⟩ | ⟨rfl, rfl, rfl⟩
     · exact ⟨by rw [h1]; rfl, h3, by unfold Adj; omega⟩
     · exact ⟨by rw [h1]; rfl, h3, by unfold Adj; omega⟩
   · rw [if_neg hfw]
-    have hcirc : setup = .circular := by
-      rcases hs with h | h
-      · exact absurd (Or.inl h) hfw
-      · exact h
-    subst hcirc
+    have hcirc : setup.eff = .circular := by
+      cases setup
+      · exact absurd (Or.inl rfl) hfw
+      · rfl
+      · rfl
+    rw [hcirc]
     by_cases hlt : e - s + 1 < N
     · rw [if_pos hlt]
-      obtain ⟨S, h1, h2, h3⟩ := bwd_spec N (mkCtl g.name (!ce)) (mkCtl g.name (!ce)) (reidxCtl1 .fixed N e) s e
-        hse heN (reidxCtl1_swapG N e) (fun j lo hi => reidxCtl1_mkCtl N e j g.name hnm (!ce) lo hi)
+      obtain ⟨S, h1, h2, h3⟩ := bwd_spec N (mkCtl g.name x (!ce)) (mkCtl g.name x (!ce)) (reidxCtl1 (.rep cc) N e) s e
+        hse heN (reidxCtl1_swapG cc N e) (fun j lo hi => reidxCtl1_mkCtl cc N e j g.name hnm x hx0 (!ce) lo hi)
       refine ⟨_, S, rfl, ?_⟩
       rcases hr with ⟨rfl, rfl, rfl⟩ | ⟨rfl, rfl, rfl⟩
       · exact ⟨by rw [h1]; rfl, h3, h2⟩
@@ -179,33 +215,37 @@ theorem routeCtl_spec (N : Nat) (setup : Setup) (hs : setup = .linear ∨ setup 
       rcases hr with ⟨-, rfl, rfl⟩ | ⟨-, rfl, rfl⟩ <;> omega
 
 /-- exchange-type gate on targets `[t0, t1]`: the routed gate acts on the images of the two
-qubits, listed in one of the two orders. -/
-theorem routeSwp_spec (N : Nat) (setup : Setup) (hs : setup = .linear ∨ setup = .circular)
+qubits, listed in one of the two orders.  Every `setup`. -/
+theorem routeSwp_specV (cc : Bool) (N : Nat) (setup : Setup)
     (g : Gate) (t0 t1 : Nat) (h01 : t0 ≠ t1) (h0 : t0 < N) (h1 : t1 < N) :
-    ∃ S p q, Routed setup N t0 t1 (routeSwp .fixed N setup g t0 t1) S ⟨g.name, [], [p, q], g.arg, 0⟩ ∧
+    ∃ S p q, Routed setup.eff N t0 t1 (routeSwp (.rep cc) N setup g t0 t1) S
+        ⟨g.name, [], [p, q], g.arg, (Variant.rep cc).cond g⟩ ∧
       ((p = track S t0 ∧ q = track S t1) ∨ (p = track S t1 ∧ q = track S t0)) := by
   obtain ⟨s, e, hmin, hmax, hse, heN, hr⟩ :
       ∃ s e, min t0 t1 = s ∧ max t0 t1 = e ∧ s < e ∧ e < N ∧ ((s = t0 ∧ e = t1) ∨ (s = t1 ∧ e = t0)) := by
     rcases Nat.lt_or_gt_of_ne h01 with h | h
     · exact ⟨t0, t1, by omega, by omega, h, h1, Or.inl ⟨rfl, rfl⟩⟩
     · exact ⟨t1, t0, by omega, by omega, h, h0, Or.inr ⟨rfl, rfl⟩⟩
-  simp only [routeSwp, hmin, hmax, fixed_argFix, if_true]
+  generalize hx : (Variant.rep cc).cond g = x
+  have hx0 : cc = false → x = 0 := fun h => by rw [← hx]; exact cond_zero_of_not_cc cc g h
+  simp only [routeSwp, hmin, hmax, rep_argFix, if_true, hx]
   by_cases hfw : setup = .linear ∨ (setup = .circular ∧ e - s ≤ N / 2)
   · rw [if_pos hfw]
-    obtain ⟨S, e1, e2, e3⟩ := fwd_spec setup N (mkSwp g.name g.arg) s e hse heN
+    obtain ⟨S, e1, e2, e3⟩ := fwd_spec setup.eff N (mkSwp g.name g.arg x) s e hse heN
     refine ⟨S, track S s, track S e, ⟨e1, e3, ?_⟩, ?_⟩
     · rcases hr with ⟨rfl, rfl⟩ | ⟨rfl, rfl⟩ <;> (unfold Adj; omega)
     · rcases hr with ⟨rfl, rfl⟩ | ⟨rfl, rfl⟩
       · exact Or.inl ⟨rfl, rfl⟩
       · exact Or.inr ⟨rfl, rfl⟩
   · rw [if_neg hfw]
-    have hcirc : setup = .circular := by
-      rcases hs with h | h
-      · exact absurd (Or.inl h) hfw
-      · exact h
-    subst hcirc
-    obtain ⟨S, e1, e2, e3⟩ := bwd_spec N (mkSwp g.name g.arg) (mkSwp g.name g.arg) (reidxSwp1 .fixed N e) s e
-      hse heN (reidxSwp1_swapG N e) (fun j lo hi => reidxSwp1_mkSwp N e j g.name g.arg lo hi)
+    have hcirc : setup.eff = .circular := by
+      cases setup
+      · exact absurd (Or.inl rfl) hfw
+      · rfl
+      · rfl
+    rw [hcirc]
+    obtain ⟨S, e1, e2, e3⟩ := bwd_spec N (mkSwp g.name g.arg x) (mkSwp g.name g.arg x) (reidxSwp1 (.rep cc) N e) s e
+      hse heN (reidxSwp1_swapG cc N e) (fun j lo hi => reidxSwp1_mkSwp cc N e j g.name g.arg x hx0 lo hi)
     refine ⟨S, track S e, track S s, ⟨e1, e3, ?_⟩, ?_⟩
     · rcases hr with ⟨rfl, rfl⟩ | ⟨rfl, rfl⟩
       · exact e2.symm
@@ -213,5 +253,22 @@ theorem routeSwp_spec (N : Nat) (setup : Setup) (hs : setup = .linear ∨ setup 
     · rcases hr with ⟨rfl, rfl⟩ | ⟨rfl, rfl⟩
       · exact Or.inr ⟨rfl, rfl⟩
       · exact Or.inl ⟨rfl, rfl⟩
+
+/-! ### the two documented setups, conditions dropped (`Variant.fixed`) -/
+
+theorem routeCtl_spec (N : Nat) (setup : Setup) (hs : setup = .linear ∨ setup = .circular)
+    (g : Gate) (c t : Nat) (hnm : g.name.isCtl = true) (hC : g.controls = [c]) (hT : g.targets = [t])
+    (hct : c ≠ t) (hc : c < N) (ht : t < N) :
+    ∃ out S, routeCtl .fixed N setup g c t = .ok out ∧
+      Routed setup N c t out S ⟨g.name, [track S c], [track S t], 0, 0⟩ := by
+  have := routeCtl_specV false N setup g c t hnm hC hT hct hc ht
+  rwa [Setup.eff_of_doc hs] at this
+
+theorem routeSwp_spec (N : Nat) (setup : Setup) (hs : setup = .linear ∨ setup = .circular)
+    (g : Gate) (t0 t1 : Nat) (h01 : t0 ≠ t1) (h0 : t0 < N) (h1 : t1 < N) :
+    ∃ S p q, Routed setup N t0 t1 (routeSwp .fixed N setup g t0 t1) S ⟨g.name, [], [p, q], g.arg, 0⟩ ∧
+      ((p = track S t0 ∧ q = track S t1) ∨ (p = track S t1 ∧ q = track S t0)) := by
+  have := routeSwp_specV false N setup g t0 t1 h01 h0 h1
+  rwa [Setup.eff_of_doc hs] at this
 
 end QipVerif.Route
